@@ -58,14 +58,20 @@ type StreamsData struct {
 // whole operation, nothing is executed while the lock is held.
 func (sd *StreamsData) getStream() *streams.Stream {
 	sd.streamLock.RLock()
+	verifhook.Event("c18", "AcqR", "routing.StreamsData.streamLock")
 	defer sd.streamLock.RUnlock()
+	defer verifhook.Event("c18", "RelR", "routing.StreamsData.streamLock")
+	verifhook.Event("c18", "Read", "routing.StreamsData.stream")
 	return sd.stream
 }
 
 // setStream publishes a fully initialized stream.
 func (sd *StreamsData) setStream(stream *streams.Stream) {
 	sd.streamLock.Lock()
+	verifhook.Event("c18", "AcqW", "routing.StreamsData.streamLock")
 	defer sd.streamLock.Unlock()
+	defer verifhook.Event("c18", "RelW", "routing.StreamsData.streamLock")
+	verifhook.Event("c18", "Write", "routing.StreamsData.stream")
 	sd.stream = stream
 }
 
